@@ -57,6 +57,8 @@ def gen_case(rng, i):
         klass = "well_conditioned"
     else:
         J, klass = M.gen(rng, max_m=6, max_n=8)
+    if name == "Krum" and rng.random() < 0.4:
+        J, klass = M.krum_hostile(rng, dname)
     m = J.shape[0]
     if rng.random() < 0.1 and name != "Krum":
         # small-scale wide matrices: EVERY entry below the default norm_eps = 1e-4 while the largest singular value is well above it
@@ -181,6 +183,26 @@ def check_case(case, ctx):
         if g2:
             ctx.not_judged(f"{name}:{g2}(transformed)")
             return
+        f9 = None
+        if name == "ConFIG":
+            # known finding F9: ConFIG's rank cut-off (pinv default rtol = max(m, n) eps) grows with the number of columns
+            k1, k2 = E.config_pinv_rank(J, dname), E.config_pinv_rank(J2, dname)
+            if k1 is None or k2 is None:
+                ctx.not_judged("ConFIG:singular_value_within_4x_of_the_pinv_cutoff")
+                return
+            if k1 != k2:
+                f9 = {"singular_values_kept_for_J": k1, "singular_values_kept_for_transformed_J": k2, "columns": [n, J2.shape[1]]}
+                ctx.count("w_config_pinv_cutoff_moved_by_the_transformation")
+        t_krum = None
+        if name == "Krum" and s > 0:
+            # judged when the reference selection is the same before and after the (rounded) transformation; the outputs are then
+            # averages of the same rows: error = a few eps of the largest selected row
+            sel1, scale = E.krum_selection(desc, J)
+            sel2, _ = E.krum_selection(desc, J2)
+            if sel1 != sel2:
+                ctx.not_judged("Krum:selection_changed_by_rounding_of_the_transformed_matrix")
+                return
+            t_krum = 4 * (desc["k"] + 2 + np.sqrt(n)) * eps
         out2, err2, rec2 = E.run(desc, J2t, seed=case["seed"], script=script)
         if err2 is not None:
             ctx.violation("aggregator_raised", case, {"error": repr(err2)[:300], "on": f"transformed({kind})"})
@@ -193,13 +215,16 @@ def check_case(case, ctx):
             return
         exact_kind = kind in ("perm", "zeros", "zeros_many") and name in ("TrimmedMean", "Mean", "Sum", "Constant", "GradDrop", "Random")
         t = 16 * eps * np.sqrt(m) if exact_kind else E.tau(name, dname, desc, J)
+        if t_krum is not None:
+            t = t_krum
         err = float(np.linalg.norm(out2 - expect))
         ctx.maximum(f"{kind}_{name}_{dname}", err / scale)
         if not err <= t * scale:
             ctx.violation({"orth": "not_equivariant_under_orthogonal_change_of_coordinates", "iso": "not_equivariant_under_isometry",
                            "perm": "depends_on_column_order", "zeros": "zero_columns_change_the_result", "zeros_many": "zero_columns_change_the_result"}[kind],
                           case if kind != "zeros_many" else {**case, "note": f"{case['k']} zero columns appended"},
-                          {"A(J)_transformed": expect[:n + 3].tolist(), "A(transformed J)": out2[:n + 3].tolist(), "error_over_scale": err / scale, "scale": scale})
+                          {"A(J)_transformed": expect[:n + 3].tolist(), "A(transformed J)": out2[:n + 3].tolist(), "error_over_scale": err / scale, "scale": scale,
+                           "pinv_cutoff": f9})
     ctx.count(f"judged:{name}/{kind}" if kind != "zeros_many" else "judged_many_zero_columns")
     if kind == "zeros_many":
         ctx.klass(f"zero_columns={case['k']}")
@@ -234,3 +259,14 @@ def waivers(counters):
         return {"rng_recorder_hits", "judged:GradDrop/perm", "judged:GradDrop/zeros", "judged:PCGrad/orth", "judged:PCGrad/iso", "judged:PCGrad/perm",
                 "judged:PCGrad/zeros", "judged:PCGrad/span"}
     return set()
+
+
+def config_pinv_cutoff_grows_with_columns(v):
+    """F9: ConFIG computes torch.linalg.pinv(unit rows) with the default tolerance max(m, n) eps, so appending (all-zero) columns moves
+    the rank cut-off past a singular value of the unit rows: a different number of singular values is kept for J and for [J 0]."""
+    d = v["detail"].get("pinv_cutoff")
+    return (v["kind"] == "zero_columns_change_the_result" and v["case"]["agg"]["name"] == "ConFIG" and bool(d)
+            and d["singular_values_kept_for_transformed_J"] < d["singular_values_kept_for_J"])
+
+
+CLASSIFIERS = {"config_pinv_cutoff_grows_with_columns": config_pinv_cutoff_grows_with_columns}
